@@ -982,8 +982,20 @@ fn exec_one(sim: &mut Simulator, stmt: &TestbenchStatement) -> ExecResult {
             ret,
         } => {
             sim.ensure_comb_updated();
-            let min_v = min.eval(&mut sim.mask_cache).payload_u64();
-            let max_v = max.eval(&mut sim.mask_cache).payload_u64();
+            // A signed bound narrower than the element type must be
+            // sign-extended (get_range masks to the element width itself).
+            let bound = |v: Value| -> u64 {
+                if v.signed()
+                    && let Value::U64(x) = &v
+                    && let Some(i) = x.to_i64()
+                {
+                    i as u64
+                } else {
+                    v.payload_u64()
+                }
+            };
+            let min_v = bound(min.eval(&mut sim.mask_cache));
+            let max_v = bound(max.eval(&mut sim.mask_cache));
             let value = crate::random_table::get_range(*handle, min_v, max_v, *width, *signed);
             if let Some((ret, _)) = ret {
                 sim.set_var_by_id(ret, value);
